@@ -33,6 +33,10 @@ class Unsupported(AnalysisError):
     pass
 
 
+class ContinueLoop(Exception):
+    pass
+
+
 class PL(list):
     """A list value of the interpreted program, stamped with its creation time."""
     stamp = 0
@@ -348,7 +352,10 @@ class Interp:
 
             def body(item):
                 self.assign(s.target, item, env)
-                self.block(s.body, env)
+                try:
+                    self.block(s.body, env)
+                except ContinueLoop:
+                    pass          # `continue`: this element contributes nothing more
             self.iterate(seq, body)
             if s.orelse:
                 self.block(s.orelse, env)
@@ -369,6 +376,8 @@ class Interp:
             raise PathRaise(name, s.lineno)
         elif isinstance(s, ast.Pass):
             pass
+        elif isinstance(s, ast.Continue):
+            raise ContinueLoop()
         else:
             raise Unsupported(f"statement {type(s).__name__} at line {s.lineno}")
 
